@@ -10,6 +10,11 @@ UPD_EMPTY = frame(2, b'\x00\x00\x00\x00')
 UPD_ROUTE = frame(2, b'\x00\x00' + struct.pack('!H', 4 + 9 + 7) +
                   b'\x40\x01\x01\x00' + b'\x40\x02\x06\x02\x01' + struct.pack('!I', 65002) +
                   b'\x40\x03\x04\x0a\x00\x00\x02' + b'\x18\xc0\x00\x02')
+# a well-formed UPDATE whose MP_REACH_NLRI names an address family the agent does not know (AFI 34): still an UPDATE
+UPD_UNKFAM = frame(2, bytes.fromhex('0000003e800e260022011000000000000000000000ffffac1f22aa008020010000000000000000000000000001'
+                                    '400101004002008004040000000040050400000064'))
+# ... and one that is reported as malformed (ORIGIN value 7) but tolerated
+UPD_MALFORMED = frame(2, b'\x00\x00\x00\x04\x40\x01\x01\x07')
 MSGS = {
     'OPEN': (peer_open(), dict(kind='OPEN', ver=4, asn=65002, hold=90)),
     'OPEN_h0': (peer_open(hold=0), dict(kind='OPEN', ver=4, asn=65002, hold=0)),
@@ -23,6 +28,8 @@ MSGS = {
     'KA': (KEEPALIVE, dict(kind='KA')),
     'UPD': (UPD_EMPTY, dict(kind='UPD')),
     'UPD1': (UPD_ROUTE, dict(kind='UPD')),
+    'UPD_unkfam': (UPD_UNKFAM, dict(kind='UPD')),
+    'UPD_malformed': (UPD_MALFORMED, dict(kind='UPD')),
     'NOTI_VER': (frame(3, b'\x02\x01'), dict(kind='NOTI', code=2, sub=1)),
     'NOTI_CEASE': (frame(3, b'\x06\x02'), dict(kind='NOTI', code=6, sub=2)),
     'NOTI_HDR': (frame(3, b'\x01\x02\x00\x13'), dict(kind='NOTI', code=1, sub=2)),
@@ -47,7 +54,7 @@ MSGS = {
 }
 ODD_LENGTH = ['OPEN_short', 'UPD_short', 'NOTI_short', 'KA_long', 'RR_short', 'RR_orf']
 ALPHABET_C01 = ['OPEN', 'OPEN_h0', 'OPEN_h1', 'OPEN_h2', 'OPEN_h9', 'OPEN_badver', 'OPEN_badas',
-                'KA', 'UPD', 'UPD1', 'NOTI_VER', 'NOTI_CEASE', 'NOTI_HDR', 'NOTI_UPD', 'NOTI_HOLD', 'NOTI_FSM', 'NOTI_RR', 'NOTI_UNK', 'RR', 'BADMARK', 'BADLEN', 'BADLEN0',
+                'KA', 'UPD', 'UPD1', 'UPD_unkfam', 'UPD_malformed', 'NOTI_VER', 'NOTI_CEASE', 'NOTI_HDR', 'NOTI_UPD', 'NOTI_HOLD', 'NOTI_FSM', 'NOTI_RR', 'NOTI_UNK', 'RR', 'BADMARK', 'BADLEN', 'BADLEN0',
                 'BADLEN4097', 'BADTYPE']
 ALPHABET_SMALL = ['OPEN', 'OPEN_h1', 'OPEN_badas', 'KA', 'UPD', 'NOTI_VER', 'NOTI_CEASE', 'BADMARK']
 
